@@ -33,7 +33,8 @@ def run_mutant(mid, spec, tier, baseline, only_props):
     ev = os.path.join(ROOT, "e-" + mid)
     sh(["git", "-C", "/repo", "worktree", "remove", "--force", wt])
     shutil.rmtree(wt, ignore_errors=True)
-    r = sh(["git", "-C", "/repo", "worktree", "add", "--detach", wt, "HEAD"])
+    # a seeded change written against an earlier tree (superseded by a later fix: commit) names its base
+    r = sh(["git", "-C", "/repo", "worktree", "add", "--detach", wt, spec.get("base", "HEAD")])
     if r.returncode != 0:
         print(r.stdout)
         return None
@@ -112,6 +113,8 @@ def main():
             d = os.path.join(VERIF, "seeded", mid)
             meta = json.load(open(os.path.join(d, "meta.json")))
             spec = {"patch": os.path.join(d, "patch.diff"), "props": meta.get("checks") or [meta["property"]], "note": meta.get("needs", "")}
+            if meta.get("base"):
+                spec["base"] = meta["base"]
         else:
             spec = MUTANTS[mid]
         run_mutant(mid, spec, tier, baseline, only)
